@@ -1,9 +1,117 @@
 import DspVerif.Driver.Proto
-/-! driver handlers for C02 (stub: no correspondence cases handled yet) -/
+import DspVerif.Model.Ifft
+/-! driver handlers for C02: `ifft`, `irfft`, `iscola`, `stft`, `istft` of `Model/Ifft.lean` run at `Float` -/
 namespace Dsp.Driver
-open Dsp.Proto
+open Dsp.Proto Dsp.Ifft
+
+/-- the literals of the small forward kernels as written in the source (regenerated) -/
+def lits02 : Fft.Lits Float := ⟨Gen.fft8_c0, Gen.rfft8_c0, Gen.dft3_c0⟩
+
+/-- splitmix-style generator shared with `harness/c02.cpp` (`mix`, `gen_re`, `gen_im`) -/
+def mix02 (m s : UInt64) : UInt64 :=
+  let z := (m + 1) * 0x9e3779b97f4a7c15 + s * 0xbf58476d1ce4e5b9
+  let z := z ^^^ (z >>> 29)
+  let z := z * 0x94d049bb133111eb
+  z ^^^ (z >>> 32)
+
+def genRe02 (m s : UInt64) : Float := (Float.ofNat ((mix02 m s) % 4001).toNat - 2000.0) / 2048.0
+def genIm02 (m s : UInt64) : Float := (Float.ofNat (((mix02 m s) >>> 20) % 4001).toNat - 2000.0) / 2048.0
+
+/-- `digest(arr_cmplx)` of `harness/c02.cpp`: 8 cells + 2 weighted sums -/
+def digestC02 (y : Array (Cx Float)) : String :=
+  let n := y.size
+  let z : Cx Float := ⟨0.0, 0.0⟩
+  let cells := (List.range 8).map (fun i =>
+    let k := ((i * n) / 8 + (i % 3)) % n
+    let v := y.getD k z
+    fmtF v.re ++ " " ++ fmtF v.im)
+  let acc := (List.range n).foldl (fun (a : Float × Float × Float × Float) k =>
+    let v := y.getD k z
+    let g0 : Float := if k % 2 == 1 then -1.0 else 1.0
+    let g1 : Float := Float.ofNat (k % 7) - 3.0
+    (a.1 + v.re * g0, a.2.1 + v.im * g0, a.2.2.1 + v.re * g1, a.2.2.2 + v.im * g1)) (0.0, 0.0, 0.0, 0.0)
+  toString n ++ " " ++ String.intercalate " " cells ++ " " ++ fmtFloats [acc.1, acc.2.1, acc.2.2.1, acc.2.2.2]
+
+/-- `digest(arr_real)` -/
+def digestR02 (y : Array Float) : String :=
+  let n := y.size
+  let cells := (List.range 8).map (fun i => fmtF (y.getD (((i * n) / 8 + (i % 3)) % n) 0.0))
+  let acc := (List.range n).foldl (fun (a : Float × Float) k =>
+    let v := y.getD k 0.0
+    (a.1 + v * (if k % 2 == 1 then -1.0 else 1.0), a.2 + v * (Float.ofNat (k % 7) - 3.0))) (0.0, 0.0)
+  toString n ++ " " ++ String.intercalate " " cells ++ " " ++ fmtFloats [acc.1, acc.2]
+
+/-- `nseg flen v…` → frames -/
+def takeFrames : List String → Option (Array (Array (Cx Float)) × List String)
+  | ns :: fl :: rest => do
+    let nseg ← ns.toNat?
+    let flen ← fl.toNat?
+    if rest.length < 2 * nseg * flen then none else
+    let xs ← (rest.take (2 * nseg * flen)).mapM parseF
+    let arr := xs.toArray
+    let frames := Array.ofFn (n := nseg) (fun i =>
+      Array.ofFn (n := flen) (fun k => (⟨arr.getD (2 * (i.val * flen + k.val)) 0.0, arr.getD (2 * (i.val * flen + k.val) + 1) 0.0⟩ : Cx Float)))
+    pure (frames, rest.drop (2 * nseg * flen))
+  | _ => none
+
+def fmtFrames (s : Array (Array (Cx Float))) : String :=
+  let flen := (s.getD 0 #[]).size
+  let body := s.toList.flatMap (fun f => f.toList.flatMap (fun z => [fmtF z.re, fmtF z.im]))
+  String.intercalate " " ([toString s.size, toString flen] ++ body)
 
 def h02 : List String → Option String
+  | "ifft" :: rest => do
+    let (x, _) ← takeCxs rest
+    match ifft lits02 x with
+    | .ok y => some (fmtCxArr y)
+    | .error _ => some "ERR"
+  | "ifftg" :: n :: s :: _ => do
+    let n ← n.toNat?
+    let s ← s.toNat?
+    let x : Array (Cx Float) := Array.ofFn (n := n) (fun i => ⟨genRe02 i.val.toUInt64 s.toUInt64, genIm02 i.val.toUInt64 s.toUInt64⟩)
+    match ifft lits02 x with
+    | .ok y => some (digestC02 y)
+    | .error _ => some "ERR"
+  | "irfft" :: n :: rest => do
+    let n ← n.toNat?
+    let (x, _) ← takeCxs rest
+    match irfft lits02 n x with
+    | .ok y => some (fmtFloatArr y)
+    | .error _ => some "ERR"
+  | "irfftg" :: n :: sz :: s :: _ => do
+    let n ← n.toNat?
+    let sz ← sz.toNat?
+    let s ← s.toNat?
+    let x : Array (Cx Float) := Array.ofFn (n := sz) (fun i => ⟨genRe02 i.val.toUInt64 s.toUInt64, genIm02 i.val.toUInt64 s.toUInt64⟩)
+    match irfft lits02 n x with
+    | .ok y => some (digestR02 y)
+    | .error _ => some "ERR"
+  | "iscola" :: m :: ov :: rest => do
+    let m ← m.toNat?
+    let ov ← ov.toNat?
+    let (w, _) ← takeFloats rest
+    match iscola w ov (if m = 0 then 1 else 2) with
+    | .ok b => some (if b then "1" else "0")
+    | .error _ => some "ERR"
+  | "stft" :: r :: nfft :: ov :: rest => do
+    let r ← r.toNat?
+    let nfft ← nfft.toNat?
+    let ov ← ov.toNat?
+    let (w, rest) ← takeFloats rest
+    let (x, _) ← takeFloats rest
+    match stft lits02 x w ov nfft r with
+    | .ok s => some (fmtFrames s)
+    | .error _ => some "ERR"
+  | "istft" :: r :: m :: nfft :: ov :: rest => do
+    let r ← r.toNat?
+    let m ← m.toNat?
+    let nfft ← nfft.toNat?
+    let ov ← ov.toNat?
+    let (w, rest) ← takeFloats rest
+    let (fr, _) ← takeFrames rest
+    match istft lits02 fr w ov nfft r m with
+    | .ok y => some (fmtFloatArr y)
+    | .error _ => some "ERR"
   | _ => none
 
 end Dsp.Driver
